@@ -577,7 +577,7 @@ def rand_op(r, ids, w, held_ids=(), slicey=False, scalar_iloc=False, vk='float')
         if held_ids and v < .22:
             k = r.randrange(len(held_ids))
             m = len(held_ids[k])
-            return ('heldSet', k, rand_rows(r, m if r.random() < .95 else m + 1, w, vk=vk))
+            return ('heldSet', k, rand_rows(r, m if r.random() < .95 else m + 1, w, allow_nan=r.random() < .3, vk=vk))
         if held_ids and v < .30:
             k = r.randrange(len(held_ids))
             sel = r.sample(held_ids[k], r.randint(1, len(held_ids[k])))
@@ -634,10 +634,12 @@ def rand_op(r, ids, w, held_ids=(), slicey=False, scalar_iloc=False, vk='float')
         if r.random() < .07:
             sel, form = sel + [max(ids) + 5], 'list'
         nrows = len(sel) if r.random() < .93 else len(sel) + 1
-        return ('locWrite', sel, rand_rows(r, nrows, w, vk=vk_in), form)
+        # NaN cells in an assignment through a slice are VALUES (the cell becomes NaN in every view), unlike the NaN cells of an
+        # update request (round 6, seeded C08-12: a write-through by DataFrame.update never overwrites with NaN)
+        return ('locWrite', sel, rand_rows(r, nrows, w, allow_nan=r.random() < .3, vk=vk_in), form)
     if u < .8:
         pos, form = rand_sel(r, ids, False, scalar_iloc)
-        return ('ilocWrite', pos, rand_rows(r, len(pos), w, vk=vk_in), form)
+        return ('ilocWrite', pos, rand_rows(r, len(pos), w, allow_nan=r.random() < .3, vk=vk_in), form)
     if u < .93:
         return ('overwrite', rand_rows(r, n if r.random() < .9 else max(0, n - 1), w, vk=vk))
     m = r.randint(1, 6)
